@@ -412,6 +412,22 @@ theorem sequentialize_correct_of_distinct_lhs (m : SModel) (hu : (m.map (·.lhs)
   · intro e h
     exact (sequentialize_error_state_unchanged m e h).1
 
+/-- Lags **and leads** are not within-period dependencies: tokens with a non-zero shift never enter the
+model of an equation (`Sequential.incidence_matrix` keeps `tok.shift == 0` only), so they change neither
+the incidence matrix nor `is_sequential` nor the outcome of `sequentialize`. -/
+theorem shifted_tokens_do_not_count (lhs : Nat) (toks extra : List STok) (h : ∀ t ∈ extra, t.2 ≠ 0) :
+    SEq.ofTokens lhs (toks ++ extra) = SEq.ofTokens lhs toks := by
+  have : (extra.filter fun t => t.2 == 0) = [] := by
+    rw [List.filter_eq_nil_iff]
+    intro t ht
+    simpa using h t ht
+  simp [SEq.ofTokens, List.filter_append, this]
+
+/-- `x0 = 0.5*x1[+1]; x1 = x0` is in sequential order as written (the lead of `x1` does not count) -/
+example : isSequential [SEq.ofTokens 0 [(1, 1)], SEq.ofTokens 1 [(0, 0)]] = true ∧
+    (sequentialize [SEq.ofTokens 0 [(1, 1)], SEq.ofTokens 1 [(0, 0)]]).1 = .ok [0, 1] := by
+  decide +kernel
+
 /-! ### the known finding `sequential-repeated-lhs`, machine-checked on the model of the current code
 
 With repeated LHS names the incidence matrix is strictly rectangular and the code's square-matrix logic
